@@ -118,6 +118,95 @@ prop("C06",
      note="trusts only the pin hook (can only lower the detected back end) and the executor",
      design_ref="DESIGN.md#c06")
 
+
+# ----------------------------------------------------------------------------- C14
+ASAN_FLAGS = ["-fsanitize=address,undefined", "-fno-sanitize=alignment", "-fno-sanitize-recover=undefined", "-fno-omit-frame-pointer", "-g"]
+ASAN = LibCfg(name="asan", cc="gcc", opt="-O1", cflags=ASAN_FLAGS)
+ASAN_ENV = {"ASAN_OPTIONS": "detect_leaks=0:abort_on_error=0:allocator_may_return_null=1:handle_abort=0", "UBSAN_OPTIONS": "print_stacktrace=1"}
+
+def asan_unit(name, harness, cases, args=(), shards=16, **kw):
+    return Unit(name, harness, ASAN, cases=cases, shards=shards, link_flags=["-fsanitize=address,undefined"], env=ASAN_ENV, args=list(args), **kw)
+
+prop("C14",
+     units=lambda tier: [Unit("c14", "c14.cpp", SHIPPED, cases=scale(tier, 2000, 60000), shards=12),
+                         asan_unit("c14-asan", "c14.cpp", scale(tier, 700, 20000), args=["--heap", "1"], shards=4 if tier == "quick" else 16)],
+     level="exploration",
+     rule=("histories on one object (CTR / parallel-ECB of each cipher on each back end; caller-owned Skinny / tweaked / Mantis "
+           "schedules) with invalid calls injected at random positions: NULL object, NULL key, key length in {0, bs-1, max+1, "
+           "huge}, tweak length {0, bs+1, huge} / Mantis != 8, counter length > bs, Mantis rounds outside 5..8, ragged byte counts "
+           "(parallel), NULL data pointers (CTR, also with size 0), any call on a zeroed or cleaned-up object; oracles: injected "
+           "call returns 0 and leaves output buffer and schedule image untouched, every other record equals the twin history "
+           "without injections, API model agrees (valid calls return 1), guard zones / ASan silent; non-trivial = an injected "
+           "call is followed by an output-producing valid call"),
+     assumptions=MODEL_ASSUME + BUILD_ASSUME + ["second unit: gcc -O1 ASan+UBSan build (alignment check off: SKINNY_UNALIGNED is the documented assumption on x86) with every buffer in its own heap block"],
+     technique="stateful property-based testing (rapidcheck) with fault-injected calls: twin differential + API model + ASan",
+     text=("Generated valid histories with injected invalid calls; the injected call must return 0 and be unobservable afterwards "
+           "(twin without the call behaves identically, schedule image unchanged, canaries and ASan silent). Sampling of "
+           "(function x invalid class x object state) cells, listed in the evidence, not proof."),
+     note="trusts the executor's guard zones / ASan for 'touches no memory it was not given'",
+     design_ref="DESIGN.md#c14")
+
+
+# ----------------------------------------------------------------------------- C15 C16 C17 (allocator monitor)
+SHIPPED_MON = LibCfg(name="shipped+allocmon", alloc_redirect=True)
+ASAN_MON = LibCfg(name="asan+allocmon", cc="gcc", opt="-O1", cflags=ASAN_FLAGS, alloc_redirect=True)
+MON_ASSUME = ["the library objects' calloc/malloc/free/realloc are redirected with objcopy to the allocator monitor "
+              "(harness/mon_alloc.c); harness and rapidcheck allocations are not counted"]
+
+def mon_units(name, src, tier, q, t, asan_share=0.3, args=()):
+    return [Unit(name, [src, "mon_alloc.c"], SHIPPED_MON, cases=scale(tier, q, t), shards=12, args=list(args)),
+            Unit(name + "-asan", [src, "mon_alloc.c"], ASAN_MON, cases=scale(tier, int(q * asan_share), int(t * asan_share)),
+                 shards=4 if tier == "quick" else 16, link_flags=["-fsanitize=address,undefined"], env=ASAN_ENV, args=list(args))]
+
+prop("C15",
+     units=lambda tier: mon_units("c15", "c15.cpp", tier, 2000, 60000),
+     level="exploration",
+     rule=("multi-object life-cycle histories (1-6 slots of the six object kinds on every back end, 4-60 calls): init, key / "
+           "tweak / counter set-up, processing, cleanup, repeated cleanup, cleanup of NULL and of a zeroed never-initialised "
+           "object, any call after cleanup, re-init and reuse; after every call the allocator monitor's live set must equal the "
+           "set of initialised, not yet cleaned objects (one block each), no double / foreign free, calls after cleanup return "
+           "0 (API model), nothing live at the end; non-trivial = history has a re-init after cleanup, a use after cleanup and "
+           ">= 2 objects live at once"),
+     assumptions=MODEL_ASSUME + BUILD_ASSUME + MON_ASSUME + ["init of an already live object is caller misuse and is not generated"],
+     technique="stateful (model-based) property testing with rapidcheck + allocator monitor invariant after every step + ASan",
+     text=("Generated multi-object life-cycle histories with an invariant checked after every step (allocator live set == "
+           "model live set, no double/foreign free, inert after cleanup); ASan build catches touching freed memory. "
+           "Sampling of histories, not proof."),
+     note="trusts the allocator monitor and ASan",
+     design_ref="DESIGN.md#c15")
+
+prop("C16",
+     units=lambda tier: mon_units("c16", "c16.cpp", tier, 600, 20000),
+     level="fault_enumeration",
+     rule=("fault enumeration: each of the six init functions x each back end (pin) x each allocation request it makes (request "
+           "1 is the only one today; request 2 is also tried and must report 'nothing injected') x prior content of the "
+           "caller's object in {zeros, 0xFF, garbage fill, stale image of a previously used and cleaned object, handle fields "
+           "pointing at harness-owned canary memory}; after the failed init every other API function is applied (must return 0, "
+           "produce no output, free / write nothing foreign, canary intact), then a successful init must work normally; "
+           "non-trivial = a failure was actually injected; distinct = distinct (site, prior content, key/data) cases"),
+     assumptions=MODEL_ASSUME + BUILD_ASSUME + MON_ASSUME,
+     extra_cov={"exhaustive_dimension": "init function x back end x allocation request (see classes site/*); prior contents and key/data sampled"},
+     technique="fault injection enumerated over allocation sites (allocator monitor) with generated prior object contents (rapidcheck)",
+     text=("Every allocation request of every init function on every back end is failed in turn, for five classes of prior "
+           "content of the caller's object; the object must be inert afterwards. The site dimension is small and fully covered "
+           "in every run; the prior-content dimension is sampled."),
+     note="trusts the allocator monitor's failure injection",
+     design_ref="DESIGN.md#c16")
+
+prop("C17",
+     units=lambda tier: [Unit("c17", ["c17.cpp", "mon_alloc.c"], SHIPPED_MON, cases=scale(tier, 1500, 40000), shards=16)],
+     level="exploration",
+     rule=("histories that key an object, process data (leaving a partially consumed keystream batch) and end in cleanup, for "
+           "every CTR / parallel-ECB kind and back end; at every free() made by the library the monitor inspects the whole "
+           "block as requested from the allocator (for skinny_calloc blocks including alignment slack and base pointer): every "
+           "byte must be zero; non-trivial = the block held >= 64 non-zero bytes just before the cleanup call"),
+     assumptions=BUILD_ASSUME + MON_ASSUME + ["library built with the shipped flags (-O3), so a wipe the optimiser removes as a dead store would be seen"],
+     technique="property-based testing (rapidcheck) with an allocator monitor inspecting every block at the moment of free()",
+     text=("Generated keyed-and-used histories ending in cleanup; the monitor checks all bytes of each block at the instant the "
+           "library hands it to free(). Covers every kind x back end (context layouts differ). Sampling of histories."),
+     note="trusts the allocator monitor; inspects the shipped -O3 build",
+     design_ref="DESIGN.md#c17")
+
 # ----------------------------------------------------------------------------- generic entry points
 def run(pid, tier, seed, replay):
     p = PROPS[pid]
